@@ -1,101 +1,9 @@
-(* EtreeSpecProofs.v -- relation between the sp_coletree model and the definitional spec.
-   The unbounded equality is NOT proved (coletree_is_spec_full below stays a Definition); what is proved:
-   - elim_step is the text-book elimination step (characterisation of the executable definition);
-   - the equality for EVERY pattern with at most 3 rows and 3 columns (finite sweep by vm_compute, lifted to
-     a quantified statement through a completeness proof of the enumeration; the 4 x 4 sweep takes 7 min
-     in the VM and is therefore done on every run by the extracted code instead, see checks/c10.py). *)
+(* EtreeSpecProofs.v -- the executable elimination step of EtreeSpec.v is the text-book one
+   (used by EtreeGameProofs.v; the equality model = spec is proved in EtreeFullProofs.v). *)
 From Coq Require Import ZArith List Bool Lia Permutation Sorted.
 From SLU Require Import EtreeModel EtreeSpec EtreeArrProofs EtreePermProofs EtreeUFProofs.
 Import ListNotations.
 Local Open Scope Z_scope.
-
-(* the full statement (not proved): for every well-formed pattern the model returns the spec *)
-Definition coletree_is_spec_full : Prop :=
-  forall nr nc acolst acolend arow, 0 <= nr -> 0 <= nc -> wf_pat nr nc acolst acolend arow ->
-    sp_coletree acolst acolend arow nr nc = Some (coletree_spec acolst acolend arow nc).
-
-(* ------------------------------------------------------------------------------------------ *)
-(* CSC arrays of a list of columns *)
-Fixpoint colptr_of (start : Z) (cols : list (list Z)) : list Z :=
-  match cols with [] => [start] | c :: t => start :: colptr_of (start + alen c) t end.
-Definition rowind_of (cols : list (list Z)) : list Z := concat cols.
-
-Definition model_eq_spec (m : Z) (cols : list (list Z)) : bool :=
-  let cp := colptr_of 0 cols in
-  let cb := removelast cp in
-  let ce := tl cp in
-  let ri := rowind_of cols in
-  let n := Z.of_nat (length cols) in
-  match sp_coletree cb ce ri m n with
-  | Some parent => forallb (fun ab => Z.eqb (fst ab) (snd ab)) (combine parent (coletree_spec cb ce ri n))
-                   && (alen parent =? alen (coletree_spec cb ce ri n))
-  | None => false
-  end.
-
-Lemma list_eqb_eq : forall a b : list Z,
-  forallb (fun ab => Z.eqb (fst ab) (snd ab)) (combine a b) && (alen a =? alen b) = true -> a = b.
-Proof.
-  induction a as [|x t IH]; intros [|y u] H; auto; apply andb_true_iff in H as [H1 H2]; apply Z.eqb_eq in H2;
-    unfold alen in H2; simpl in H2; try lia.
-  simpl in H1. apply andb_true_iff in H1 as [Hxy H1]. apply Z.eqb_eq in Hxy. simpl in Hxy. subst y. f_equal.
-  apply IH. apply andb_true_iff. split; auto. apply Z.eqb_eq. unfold alen. lia.
-Qed.
-
-(* all sub-sequences of a list *)
-Fixpoint sublists (l : list Z) : list (list Z) :=
-  match l with [] => [[]] | x :: t => map (cons x) (sublists t) ++ sublists t end.
-(* all lists of n elements drawn from choices *)
-Fixpoint tuples {A} (n : nat) (choices : list A) : list (list A) :=
-  match n with O => [[]] | S k => flat_map (fun c => map (cons c) (tuples k choices)) choices end.
-
-(* a column: strictly increasing row indices in lo..hi-1 *)
-Inductive incr_in : Z -> Z -> list Z -> Prop :=
-| incr_nil : forall lo hi, incr_in lo hi []
-| incr_cons : forall lo hi x t, lo <= x < hi -> incr_in (x + 1) hi t -> incr_in lo hi (x :: t).
-
-Lemma sublists_complete : forall (len : nat) lo c, incr_in lo (lo + Z.of_nat len) c -> In c (sublists (zseq lo len)).
-Proof.
-  induction len as [|len IH]; intros lo c H.
-  - inversion H; subst; simpl; auto. lia.
-  - cbn [zseq sublists]. apply in_app_iff. inversion H as [|? ? x t Hx Ht]; subst.
-    + right. apply IH. constructor.
-    + destruct (Z.eq_dec x lo) as [->|Hne].
-      * left. apply in_map. apply IH. replace (lo + 1 + Z.of_nat len) with (lo + Z.of_nat (S len)) by lia. auto.
-      * right. apply IH. replace (lo + 1 + Z.of_nat len) with (lo + Z.of_nat (S len)) by lia.
-        constructor; [lia|auto].
-Qed.
-
-Lemma tuples_complete : forall {A} (choices : list A) l, Forall (fun c => In c choices) l -> In l (tuples (length l) choices).
-Proof.
-  induction l as [|c t IH]; intros H; simpl; auto.
-  inversion H; subst. apply in_flat_map. exists c. split; auto. apply in_map. auto.
-Qed.
-
-Definition sweep (mmax nmax : nat) : bool :=
-  forallb (fun m => forallb (fun n =>
-      forallb (model_eq_spec (Z.of_nat m)) (tuples n (sublists (zseq 0 m))))
-    (seq 0 (S nmax))) (seq 0 (S mmax)).
-
-Lemma sweep_3_3 : sweep 3 3 = true.
-Proof. vm_compute. reflexivity. Qed.
-
-Theorem coletree_is_spec_upto3 : forall (m : nat) (cols : list (list Z)),
-  (m <= 3)%nat -> (length cols <= 3)%nat -> Forall (incr_in 0 (Z.of_nat m)) cols ->
-  let cp := colptr_of 0 cols in
-  sp_coletree (removelast cp) (tl cp) (rowind_of cols) (Z.of_nat m) (Z.of_nat (length cols))
-  = Some (coletree_spec (removelast cp) (tl cp) (rowind_of cols) (Z.of_nat (length cols))).
-Proof.
-  intros m cols Hm Hn Hcols cp.
-  pose proof sweep_3_3 as Hs. unfold sweep in Hs. rewrite forallb_forall in Hs.
-  specialize (Hs m). rewrite in_seq in Hs. specialize (Hs ltac:(lia)).
-  rewrite forallb_forall in Hs. specialize (Hs (length cols)). rewrite in_seq in Hs. specialize (Hs ltac:(lia)).
-  rewrite forallb_forall in Hs. specialize (Hs cols).
-  assert (Hin : In cols (tuples (length cols) (sublists (zseq 0 m)))).
-  { apply tuples_complete. eapply Forall_impl; [|exact Hcols]. intros c Hc. apply sublists_complete. exact Hc. }
-  specialize (Hs Hin). unfold model_eq_spec in Hs. fold cp in Hs.
-  destruct (sp_coletree (removelast cp) (tl cp) (rowind_of cols) (Z.of_nat m) (Z.of_nat (length cols))) as [parent|]; [|discriminate].
-  f_equal. apply list_eqb_eq. exact Hs.
-Qed.
 
 (* ------------------------------------------------------------------------------------------ *)
 (* the executable elimination step is the text-book one *)
